@@ -22,8 +22,10 @@ Inductive dur := DNone | DWake (d : N) | DWinch (d : N).
 
 Inductive act :=
 | AWake (n : N) | AIn (toks : list N) | AWinch | ATerm | AWrite (len : N) | APause (b : bool) | AHup
-| APoll (tmo : option N) (send pending elapsed : N) (during : dur).
-  (* observed after the poll: stats.send, frames_pending(), wall-clock milliseconds *)
+| AFault (n : N)     (* the next n writes to the tty fail with EAGAIN although select reports it writable *)
+| APoll (tmo : option N) (send pending elapsed : N) (during : dur) (spins : N).
+  (* observed after the poll: stats.send, frames_pending(), wall-clock milliseconds, and how many of
+     the scripted EAGAIN failures the poll ran into *)
 
 Inductive ekind := EDrop | EDropPaused | EHup.
 
@@ -35,7 +37,16 @@ Inductive c17_case :=
 | CS (acts : list act) (obs : list pobs) (e : ekind) (restored closing : bool)
 | CR (acts : list act) (obs : list pobs) (via : pobs) (restored closing : bool)
     (* as CS, but the session is left through Terminal::run / run_render returning `via` *)
-| CT (requested seen other : N) (last quiet : bool).
+| CT (requested seen other : N) (last quiet : bool)
+| CO (failed unchanged : bool)
+| CF (drop_ms : N) (restored : bool)
+| CE (winches resizes others : N) (mode_and_restored : bool).
+    (* escape-sequence resize mode (the ioctl gives no pixel size, the terminal answers CSI 18 t / 14 t):
+       every SIGWINCH is answered by at least one Resize event, nothing else shows up; not modelled *)
+    (* dropped while the other side keeps typing and never answers the sync request: the wait of
+       dispose has an overall deadline (3 s, plus one poll of at most 1 s) *)
+    (* SystemTerminal::open made to fail after the tty is known (no descriptors for the sockets): no
+       object exists, no Drop will run; the line settings must be the ones found *)
 
 Definition pobs_eqb (a b : pobs) : bool :=
   match a, b with
@@ -80,12 +91,14 @@ Definition during_rounds (du : dur) : list (round_env N) :=
   | DWinch _ => [mkR false [MWinch] true None false [] [] [] 1024]     (* EINTR, then the next select *)
   end.
 
-Definition sched_for (tmo : option N) (s : st) (send pending : N) (du : dur) : list (round_env N) :=
+Definition sched_for (tmo : option N) (s : st) (send pending : N) (du : dur) (spins : N) : list (round_env N) :=
   let q := flush (tq (io s)) in
   let d := send - N.of_nat (sent (io s)) in
   let accepts := resched (2 * chunks_count q + 4) q d (N.to_nat pending) in
   let expired0 := match tmo with Some 0 => true | _ => false end in
   during_rounds du
+  (* iterations in which the tty was reported writable and the write failed with EAGAIN *)
+  ++ repeat (mk_round expired0 [] (Some 0)) (N.to_nat spins)
   ++ map (fun a => mk_round expired0 [] a) accepts
   ++ match tmo with
      | Some 0 => repeat (mk_round true [] None) 3
@@ -119,15 +132,21 @@ Fixpoint model_run (s : st) (paused : bool) (acts : list act) (obs : list pobs) 
           model_run (upd_io s (mkT (write (tq t) (N.iter len (cons 0) [])) (tty t) (sent t)))
                     paused rest obs
       | AHup => model_run (arrive s MHup) paused rest obs
+      | AFault _ => model_run s paused rest obs
       | APause b => model_run s b rest obs
-      | APoll tmo send pending _ du =>
+      | APoll tmo send pending _ du spins =>
           match obs with
           | [] => None
           | o :: obs' =>
               let finite := match tmo with Some _ => true | None => false end in
-              let '(r, s', _) := poll finite s (sched_for tmo s send pending du) in
+              let '(r, s', _) := poll finite s (sched_for tmo s send pending du spins) in
               match res_obs r with
-              | Some o' => if pobs_eqb o o' then model_run s' paused rest obs' else None
+              | Some o' =>
+                  (* on a tty that has hung up a read answers 0 or EIO (both were observed on this
+                     kernel): quit error and i/o error are not told apart then *)
+                  let is_err x := match x with OQ | OE => true | _ => false end in
+                  if pobs_eqb o o' || (hup s && is_err o && is_err o')
+                  then model_run s' paused rest obs' else None
               | None => None
               end
           end
@@ -171,11 +190,14 @@ Definition nothing_outstanding (o : outstanding) : bool :=
 
 Definition slack : N := 1000.       (* milliseconds of scheduling noise tolerated on a loaded machine *)
 
-Definition timely (tmo : option N) (du : dur) (was_owed : bool) (elapsed : N) : bool :=
+(* wake_owed: a wake request is outstanding when the poll is entered.  Only wake requests bound an
+   infinite poll unconditionally; other events are returned once the output has been flushed *)
+Definition timely (tmo : option N) (du : dur) (wake_owed : bool) (elapsed : N) : bool :=
   match tmo, du with
   | Some ms, _ => elapsed <=? ms + slack                      (* a finite poll returns by its timeout *)
-  | None, DWake d | None, DWinch d => elapsed <=? d + slack   (* the request ends the infinite poll *)
-  | None, DNone => if was_owed then elapsed <=? slack else true
+  | None, DWake d | None, DWinch d => elapsed <=? d + slack   (* the request ends the infinite poll
+                                                                 (DWinch is scripted with no output stalled) *)
+  | None, DNone => if wake_owed then elapsed <=? slack else true
   end.
 
 Definition owes (o : outstanding) : bool := negb (nothing_outstanding o).
@@ -191,7 +213,9 @@ Fixpoint spec_run (o : outstanding) (hup : bool) (acts : list act) (obs : list p
       | ATerm => spec_run (mkO (o_wake o) (o_may o) (o_winch o) (o_wmay o) true (o_keys o)) hup rest obs
       | AWrite _ | APause _ => spec_run o hup rest obs
       | AHup => spec_run o true rest obs
-      | APoll tmo _ _ elapsed du =>
+      | AFault _ => spec_run o hup rest obs
+      | APoll tmo _ _ elapsed du spins =>
+          let owed_at_entry := o_wake o in
           (* a request issued while the thread sits in the poll is owed like any other *)
           let o := match du with
                    | DNone => o
@@ -201,7 +225,10 @@ Fixpoint spec_run (o : outstanding) (hup : bool) (acts : list act) (obs : list p
           match obs with
           | [] => false
           | ob :: obs' =>
-              timely tmo du (owes o) elapsed &&
+              timely tmo du owed_at_entry elapsed &&
+              (* bounded in iterations too: with a wake owed the loop does not go round on a tty that
+                 is reported writable and takes nothing *)
+              (if owed_at_entry then spins <=? 1 else true) &&
               match ob with
               | OW => (0 <? o_may o)
                       && spec_run (mkO false (o_may o - 1) (o_winch o) (o_wmay o) (o_term o) (o_keys o)) hup rest obs'
@@ -240,6 +267,9 @@ Definition c17_check (c : c17_case) : bool * bool :=
   | CT requested seen other last quiet =>
       (* coalescing allowed, loss and invention impossible; a request after the storm is seen *)
       (true, (1 <=? seen) && (seen <=? requested) && (other =? 0) && last && quiet)
+  | CO failed unchanged => (failed, unchanged)
+  | CF drop_ms restored => (true, restored && (drop_ms <=? 4000 + slack))
+  | CE winches resizes others ok => (true, ok && (winches <=? resizes) && (others =? 0))
   end.
 
 Definition c17_report := report c17_check.
